@@ -170,7 +170,8 @@ def orderFieldReaders : List (String × String) :=
     inside a map loop or the function it calls are: the decode tables (read by `lookUp` — modelled
     by `C04.lookUp` — and by the table construction itself), the format list (read by `matchFormat`
     — `C04.matchFormatIn` — and by its own sort), the id counter `nextInstID` (read by
-    `addInstType` only). `InstType.ID` — the one value that really depends on the iteration order
+    `addInstType` and by `addCDNA3InstType`, which fills the CDNA3 override table — `C04.lookUpArch`
+    over `Gen.cdna3Rows` — from a fixed slice, not from a map loop). `InstType.ID` — the one value that really depends on the iteration order
     of the VOP1 copy loop — is written and NEVER read. -/
 theorem order_carrying_fields_audited :
     orderFieldReaders = [
@@ -179,9 +180,11 @@ theorem order_carrying_fields_audited :
       ("insts.Disassembler.decodeTables", "Disassembler.addInstType"),
       ("insts.decodeTable.insts", "Disassembler.addInstType"),
       ("insts.Disassembler.nextInstID", "Disassembler.addInstType"),
+      ("insts.decodeTable.insts", "Disassembler.addCDNA3InstType"),
+      ("insts.Disassembler.nextInstID", "Disassembler.addCDNA3InstType"),
       ("insts.Disassembler.formatList", "Disassembler.matchFormat"),
-      ("insts.Disassembler.decodeTables", "Disassembler.lookUp"),
       ("insts.decodeTable.insts", "Disassembler.lookUp"),
+      ("insts.Disassembler.decodeTables", "Disassembler.lookUp"),
       ("insts.Disassembler.formatList", "Disassembler.initFormatList")] ∧
     (Gen.orderFieldUses.all fun u => u.field != "insts.InstType.ID" || u.use == "write") = true := by
   constructor <;> decide
